@@ -17,15 +17,15 @@ import (
 )
 
 type SpecEnv struct {
-	ex     *Exec
-	cur    *State
-	old    *State
-	vars   map[string]Val
-	pkg    *types.Package
-	fr     *Frame // for locals (loop clauses)
-	atLoop bool
-	qn     *int
-	depth  int
+	ex         *Exec
+	cur        *State
+	old        *State
+	vars       map[string]Val
+	pkg        *types.Package
+	fr         *Frame // for locals (loop clauses)
+	atLoop     bool
+	qn         *int
+	depth      int
 	entryAlloc string
 }
 
@@ -923,7 +923,6 @@ func (ex *Exec) bindLogical(env *SpecEnv, ctr *Contract, st *State) {
 
 // atReturn: obligations at a return of the unit's top function.
 func (ex *Exec) atReturn(fr *Frame, st *State, reach string, vals []Val, pos token.Pos) {
-	ex.obligeSat(fr, "reach", "function exit is reachable (vacuity guard)", reach)
 	ex.lockAtReturn(fr, st, reach, pos)
 	ctr := fr.ctr
 	if ctr == nil {
